@@ -686,6 +686,12 @@ func (node *Node) AsMapString(ctx *Context, vp unsafe.Pointer) error {
 		knode := NewNode(next)
 		key, _ := knode.AsStr(ctx)
 		val := NewNode(PtrOffset(next, 1))
+		/* `null` stores the zero value under the key */
+		if val.IsNull() {
+			m[key] = ""
+			next = PtrOffset(val.cptr, 1)
+			continue
+		}
 		m[key], ok = val.AsStr(ctx)
 		if !ok {
 			if gerr == nil {
@@ -747,6 +753,11 @@ func (node *Node) AsSliceI32(ctx *Context, vp unsafe.Pointer) error {
 	var gerr error
 	for i := 0; i < size; i++ {
 		val := NewNode(next)
+		/* `null` leaves the element as it is, like the other decoders do */
+		if val.IsNull() {
+			next = PtrOffset(val.cptr, 1)
+			continue
+		}
 		ret, ok := val.AsI64(ctx)
 		if !ok || ret > math.MaxInt32 || ret < math.MinInt32 {
 			if gerr == nil {
@@ -776,7 +787,11 @@ func (node *Node) AsSliceI64(ctx *Context, vp unsafe.Pointer) error {
 	var gerr error
 	for i := 0; i < size; i++ {
 		val := NewNode(next)
-
+		/* `null` leaves the element as it is, like the other decoders do */
+		if val.IsNull() {
+			next = PtrOffset(val.cptr, 1)
+			continue
+		}
 		ret, ok := val.AsI64(ctx)
 		if !ok {
 			if gerr == nil {
@@ -806,6 +821,11 @@ func (node *Node) AsSliceU32(ctx *Context, vp unsafe.Pointer) error {
 	var gerr error
 	for i := 0; i < size; i++ {
 		val := NewNode(next)
+		/* `null` leaves the element as it is, like the other decoders do */
+		if val.IsNull() {
+			next = PtrOffset(val.cptr, 1)
+			continue
+		}
 		ret, ok := val.AsU64(ctx)
 		if !ok || ret > math.MaxUint32 {
 			if gerr == nil {
@@ -835,6 +855,11 @@ func (node *Node) AsSliceU64(ctx *Context, vp unsafe.Pointer) error {
 	var gerr error
 	for i := 0; i < size; i++ {
 		val := NewNode(next)
+		/* `null` leaves the element as it is, like the other decoders do */
+		if val.IsNull() {
+			next = PtrOffset(val.cptr, 1)
+			continue
+		}
 		ret, ok := val.AsU64(ctx)
 		if !ok {
 			if gerr == nil {
@@ -864,6 +889,11 @@ func (node *Node) AsSliceString(ctx *Context, vp unsafe.Pointer) error {
 	var gerr error
 	for i := 0; i < size; i++ {
 		val := NewNode(next)
+		/* `null` leaves the element as it is, like the other decoders do */
+		if val.IsNull() {
+			next = PtrOffset(val.cptr, 1)
+			continue
+		}
 		ret, ok := val.AsStr(ctx)
 		if !ok {
 			if gerr == nil {
@@ -898,6 +928,11 @@ func (val *Node) AsSliceBytes(ctx *Context) ([]byte, error) {
 		var gerr error
 		var ok bool
 		for i := 0; i < size; i++ {
+			/* `null` leaves the element zero */
+			if elem.IsNull() {
+				elem = NewNode(PtrOffset(elem.cptr, 1))
+				continue
+			}
 			a[i], ok = elem.AsByte(ctx)
 			if !ok && gerr == nil {
 				gerr = newUnmatched(val.Position(), rt.BytesType)
